@@ -151,17 +151,14 @@ def case_b(case):
         lg = bharness.make_lang(I, lang, cfg)
         generics = ["T"] if base == "generic" else []
         if container == "struct":
-            item = ir.struct("S", [ir.field("keep", ir.special("Bool")), ir.field("f", ty, has_default=hd)], generics=generics)
-            ok, w = bharness.call_write(I, lang, "write_struct", lg, item)
+            pd = ir.parsed_data(structs=[ir.struct("S", [ir.field("keep", ir.special("Bool")), ir.field("f", ty, has_default=hd)], generics=generics)])
         elif container == "struct_variant":
-            item = ir.enum_alg("E", [ir.v_unit("U"), ir.v_anon("V", [ir.field("keep", ir.special("Bool")), ir.field("f", ty, has_default=hd)])], generics=generics)
-            ok, w = bharness.call_write(I, lang, "write_enum", lg, item)
+            pd = ir.parsed_data(enums=[ir.enum_alg("E", [ir.v_unit("U"), ir.v_anon("V", [ir.field("keep", ir.special("Bool")), ir.field("f", ty, has_default=hd)])], generics=generics)])
         elif container == "newtype_variant":
-            item = ir.enum_alg("E", [ir.v_unit("U"), ir.v_tuple("V", ty)], generics=generics)
-            ok, w = bharness.call_write(I, lang, "write_enum", lg, item)
+            pd = ir.parsed_data(enums=[ir.enum_alg("E", [ir.v_unit("U"), ir.v_tuple("V", ty)], generics=generics)])
         else:
-            item = ir.alias("A", ty, generics=generics)
-            ok, w = bharness.call_write(I, lang, "write_type_alias", lg, item)
+            pd = ir.parsed_data(aliases=[ir.alias("A", ty, generics=generics)])
+        ok, w, _ = bharness.generate(I, lang, pd, lang_value=lg)
         # the translated type of the unwrapped member, by the same back end
         unwrapped = ir.option(inner) if shape == "double_option" else inner
         ft = bharness.format_type(I, lang, lg, unwrapped, generics)
